@@ -109,6 +109,8 @@ Theorem C37_source_facts :
   gen_default_separator = model_default_separator /\
   gen_default_skip = 2 /\
   gen_brace_prefix = model_brace_prefix /\
-  gen_lookupenv_calls = 2 /\ gen_getenv_calls = 0.
+  gen_lookupenv_calls = 2 /\ gen_getenv_calls = 0 /\
+  gen_expansion_call_sites = ["Parse:expandEnvVars"]%string /\
+  gen_load_hands_file_bytes_to_parse = true.
 Proof. repeat split; reflexivity. Qed.
 Print Assumptions C37_source_facts.
